@@ -328,6 +328,10 @@ pub struct Program {
     pub decls: Vec<TypeDecl>,
     pub consts: Vec<ConstDecl>,
     pub funcs: Vec<Func>,
+    /// order of the sections in the printed text (declarations may come in any order):
+    /// `layout % 6` permutes types / constants / functions, `layout / 6 % 2 == 1` reverses
+    /// the constants and the functions among themselves
+    pub layout: u8,
 }
 
 // ---------------------------------------------------------------------------
@@ -449,16 +453,30 @@ impl<'a> Printer<'a> {
                 }
             }
         }
-        for c in &prog.consts {
+        let types = std::mem::take(&mut self.out);
+        let rev = prog.layout / 6 % 2 == 1;
+        let consts: Vec<&ConstDecl> = if rev { prog.consts.iter().rev().collect() } else { prog.consts.iter().collect() };
+        for c in consts {
             let _ = write!(self.out, "const {}: {} = ", c.name, ty_str(prog, &c.ty));
             self.expr(&c.init, 0);
             self.out.push_str(";\n\n");
         }
-        for f in &prog.funcs {
+        let consts = std::mem::take(&mut self.out);
+        let funcs: Vec<&Func> = if rev { prog.funcs.iter().rev().collect() } else { prog.funcs.iter().collect() };
+        for f in funcs {
             self.func(f);
             self.out.push_str("\n\n");
         }
-        self.out
+        let funcs = std::mem::take(&mut self.out);
+        let order: [&str; 3] = match prog.layout % 6 {
+            0 => [&types, &consts, &funcs],
+            1 => [&types, &funcs, &consts],
+            2 => [&funcs, &consts, &types],
+            3 => [&consts, &types, &funcs],
+            4 => [&funcs, &types, &consts],
+            _ => [&consts, &funcs, &types],
+        };
+        order.concat()
     }
 
     pub fn func(&mut self, f: &Func) {
